@@ -97,13 +97,16 @@ PROPS = {
    "the stream's value.",
    "Kernel-checked for the CBOR encoder; UBJSON/JSON by mirror + correspondence + oracle."),
  "C16": P("DESIGN.md 7 C16",
-   "Lean 4 proof (success iff no Write failed, for every stream and fault index) + exhaustive fault-index correspondence",
+   "Lean 4 proof (encoder: success iff no Write failed; parser: a visitor error at event k is returned and is the last event, for every input, chunking and fault index) + exhaustive fault-index correspondence",
    "encoder_reports_write_errors: with a writer failing from its k-th call on, the CBOR encoder reports success iff no "
-   "Write failed, and the failing event is the one returning the error. Correspondence: ops `enc` (fault index "
+   "Write failed, and the failing event is the one returning the error. parser_returns_visitor_error / "
+   "writeChunks_returns_visitor_error: for every byte string, chunking and k, the CBOR parser either delivers at most k "
+   "events without a visitor error, or returns the visitor's error with event k the last one delivered (case analysis "
+   "over every parser state: SF/Proofs/CborFault.lean, CborFailAt.lean). Correspondence: ops `enc` (fault index "
    "exhaustive for small streams) and `parse` (visitor failing at event k, k exhaustive); oracle: an error is reported "
    "/ the injected error is returned and no further event delivered.",
-   "Kernel-checked for the CBOR encoder; parsers' visitor-fault direction and other encoders by mirror + correspondence.",
-   partial="parser/visitor-fault theorem and UBJSON/JSON encoders not yet proved"),
+   "Kernel-checked for the CBOR encoder and the CBOR parser; UBJSON/JSON by mirror + correspondence + oracle.",
+   partial="UBJSON/JSON encoders and parsers, gotype fold/unfold: mirror + correspondence, no theorem yet"),
  "C17": P("DESIGN.md 7 C17",
    "Lean 4 proof (documents restore every stack; reuse = fresh by induction on histories) + differential correspondence with depth hooks",
    "cbor_encoder_reuse / cbor_parser_reuse / cbor_parser_idle. Correspondence: ops `reuse-enc` / `reuse-parse` (histories "
